@@ -22,7 +22,7 @@ def stress_cases(ctx, res, n):
         if init == [-1] and res == "val":      # the first writes of an empty Value
             progs = [dict(rnd.choice([call(v=1, cia=True), call(v=2, cia=True), call(v=1, inc=True, cia=True),
                                       call(v=2, inc=True, cia=True), call(v=3, chk=True, cia=True)])) for _ in range(nw)]
-        cases.append({"res": res, "init": init, "progs": progs, "kinds": [], "sched": [],
+        cases.append({"res": res, "init": init, "progs": progs, "kinds": [], "sched": [], "payload": rnd.choice(["", "", "change"]),
                       "stress": 40 if ctx.tier == "quick" else 400})
     return cases
 
@@ -45,6 +45,10 @@ def run(ctx):
     ctx.cov["attack_schedules"] = len(att)
     if len(att) < 20:
         raise vf.Inconclusive("only %d attack schedules found" % len(att))
+    # every third run stores messages shaped like a Pull response's Change (the tracked integer in change_time):
+    # the commit-time comparison is plain message equality whatever the payload looks like
+    for i, c in enumerate(cases + att):
+        c["payload"] = "change" if i % 3 == 0 else ""
     ctx.cov["schedules_generated_by_tlc"] = len(cases) + len(att)
     conc_common.run_and_check(ctx, "C02", cases, "forced")
     conc_common.run_and_check(ctx, "C02", att, "attack")
